@@ -123,6 +123,12 @@ pub fn x(r: &mut Ref, e: &X) -> String {
             let esc = esc.map(|c| format!(" ESCAPE {}", r.lit(&Value::Char(Some(c))))).unwrap_or_default();
             format!("(({a}) {}LIKE ({b}){esc})", if *not { "NOT " } else { "" })
         }
+        X::ILike(e, not, pat, esc) => {
+            let a = x(r, e);
+            let b = x(r, pat);
+            let esc = esc.map(|c| format!(" ESCAPE {}", r.lit(&Value::Char(Some(c))))).unwrap_or_default();
+            format!("(({a}) {}ILIKE ({b}){esc})", if *not { "NOT " } else { "" })
+        }
         X::In(e, not, list) => {
             if list.is_empty() {
                 // documented encoding: 1 = 2 / 1 = 1 (two bound values)
